@@ -74,7 +74,9 @@ func ReadBucketMeta(name string) (bucketMeta *BucketMeta, err error) {
 	if h, _, herr := verifFS("open", name, 0, nil); h {
 		return nil, herr
 	}
-	fd, err := os.OpenFile(name, os.O_CREATE|os.O_RDWR, 0644)
+	// read-only: looking up a bucket that was never written must not create its
+	// meta file (an empty one makes the next Open fail with EOF)
+	fd, err := os.OpenFile(name, os.O_RDONLY, 0644)
 	defer fd.Close()
 	if err != nil {
 		return
